@@ -12,7 +12,9 @@ Open Scope nat_scope.
 
 Theorem C13_inline : forall cfg s c c' e k sc, conn_step cfg s c = Some (c', e) -> pc c = CInline k sc ->
   nread c' = nread c /\ started c' = started c /\
-  (input c' = input c \/ exists rest, sc = HHandshake :: rest /\ (input c = IHello :: input c' \/ input c = IBad :: input c')).
+  (input c' = input c \/
+   exists rest d, sc = HHandshake :: rest /\ Forall is_req d /\
+                  (input c = d ++ IHello :: input c' \/ input c = d ++ IBad :: input c')).
 Proof. exact c13_inline. Qed.
 Print Assumptions C13_inline.
 
